@@ -150,8 +150,9 @@ class Contract:
     def __init__(self, qualname, params, requires=None, ensures=None, raises=None, loops=None,
                  local_types=None, modifies=None, result_type=None, assumed_asserts=None,
                  pure=None, trusted=False, defaults=None, properties=(), note="", may_raise=None,
-                 captured=None, lemmas=None, ann_types=None, axioms=None, custom_apply=None, append_schema=None, trusted_fragments=None, merge_ifs=False, body_params=None, rec_variant=None):
+                 captured=None, lemmas=None, ann_types=None, axioms=None, custom_apply=None, append_schema=None, trusted_fragments=None, merge_ifs=False, body_params=None, rec_variant=None, raising_asserts=None):
         self.qualname = qualname
+        self.raising_asserts = raising_asserts or []   # substrings of assert tests that are declared exceptional outcomes (AssertionError), not obligations
         self.rec_variant = rec_variant        # measure (lambda c -> Int term) that decreases at every recursive call
         self.body_params = body_params        # parameter typing used when the BODY is verified (default: params)
         self.merge_ifs = merge_ifs            # join the branches of simple if-statements instead of forking paths
